@@ -242,6 +242,9 @@ Definition exit_ok {A} (ctx : N) (sc : list N) (e : senv) (c c' : N) (E : env) (
       exists E' stL', rl = ROk (E', SigBreak) stL' /\ rel pv sv bound u fl W sc e st' E stL' /\ xkeep c c' E stL stL'
   | SyltSem.RAbrupt SyltSem.CContinue =>
       exists E' stL', rl = ROk (E', SigGoto (fmt_label ctx)) stL' /\ rel pv sv bound u fl W sc e st' E stL' /\ xkeep c c' E stL stL'
+  | SyltSem.RAbrupt (SyltSem.CReturn v) =>
+      exists E' stL' lv, rl = ROk (E', SigReturn [lv]) stL' /\ vrel v lv /\
+                         rel pv sv bound u fl W sc e st' E stL' /\ xkeep c c' E stL stL'
   | _ => False
   end.
 
@@ -255,6 +258,7 @@ Proof.
   - destruct H as (ev & stL' & -> & _). intros [].
   - destruct H as (E' & stL' & -> & _). intros [].
   - destruct H as (E' & stL' & -> & _). intros [].
+  - destruct H as (E' & stL' & lv & -> & _). intros [].
 Qed.
 
 Lemma xkeep_widen c c' a b E stL stL' : xkeep c c' E stL stL' -> a <= c -> c' <= b -> xkeep a b E stL stL'.
@@ -268,6 +272,7 @@ Proof.
   destruct r as [a|o|[| |v]]; cbn [exit_ok] in *; try contradiction; try exact Hok.
   - destruct Hok as (E' & stL' & -> & Hr & Hk). exists E', stL'. split; [reflexivity | split; [exact Hr | eapply xkeep_widen; [exact Hk | lia | exact Hc]]].
   - destruct Hok as (E' & stL' & -> & Hr & Hk). exists E', stL'. split; [reflexivity | split; [exact Hr | eapply xkeep_widen; [exact Hk | lia | exact Hc]]].
+  - destruct Hok as (E' & stL' & lv & -> & Hv & Hr & Hk). exists E', stL', lv. split; [reflexivity | split; [exact Hv | split; [exact Hr | eapply xkeep_widen; [exact Hk | lia | exact Hc]]]].
 Qed.
 
 Definition eval_post (ctx : N) (sc : list N) (e : senv) (F : list N) (c c' : N) (E : env) (stL : state) (b : block)
@@ -280,13 +285,13 @@ Definition eval_post (ctx : N) (sc : list N) (e : senv) (F : list N) (c c' : N) 
   end.
 
 (* the results of the reference interpreter the theorem speaks about: values, a failed <=> / reached <!>,
-   break and continue (ret is outside the fragment) *)
+   break, continue and ret *)
 Definition interesting {A} (r : SyltSem.res A) : Prop :=
   match r with
   | SyltSem.RVal _ => True
   | SyltSem.RStop o => good_stop o
   | SyltSem.RAbrupt SyltSem.CBreak | SyltSem.RAbrupt SyltSem.CContinue => True
-  | SyltSem.RAbrupt (SyltSem.CReturn _) => False
+  | SyltSem.RAbrupt (SyltSem.CReturn _) => True
   end.
 
 Lemma interesting_dec {A} (r : SyltSem.res A) : {interesting r} + {~ interesting r}.
@@ -387,8 +392,19 @@ Definition fb_post (sc : list N) (e : senv) (E : env) (stL : state) (b : block)
         rel pv sv bound u fl W sc' e' st' E' stL' /\ sext sc e e' /\ incl sc sc' /\ keep sc E E' /\
         (s_ncell stL <= s_ncell stL')%positive
   | SyltSem.RStop o => exists ev stL', ExecS E b stL (RErr ev stL') /\ SyltSem.trace st' = s_out stL'
+  | SyltSem.RAbrupt (SyltSem.CReturn v) =>
+      exists E' stL' lv, ExecS E b stL (ROk (E', SigReturn [lv]) stL') /\ vrel v lv /\
+                         rel pv sv bound u fl W sc e st' E stL' /\ (s_ncell stL <= s_ncell stL')%positive
   | SyltSem.RAbrupt _ => True
   end.
+
+(* an early return out of the body *)
+Lemma fb_of_exit {A} ctx sc e c c' E stL b v st' :
+  exit_post ctx sc e c c' E stL b (@SyltSem.RAbrupt A (SyltSem.CReturn v)) st' ->
+  fb_post sc e E stL b (SyltSem.RAbrupt (SyltSem.CReturn v)) st'.
+Proof.
+  intros (rl & Hx & (E' & stL' & lv & -> & Hv & Hr & Hn & _)). exists E', stL', lv. auto.
+Qed.
 
 Definition P_fb (n : nat) : Prop :=
   forall g k body ctx c code c' e st r st' sc sc' l E stL F,
